@@ -71,6 +71,7 @@ ORIENT = (
 ORIENT_PAIR_IDX = (0, 11, 4, 12, 1, 7, 8, 5, 6, 2, 9, 10, 3, 13)
 PAIR_GEOS = ((("chain", 2), (1.5, 0.5), (3.0,)), (("chain", 3), (1.0, 0.5, 1.0), (1.5, 2.0)), (("arms", 1, 1), (1.5, 1.0, 0.5), (2.0, 3.0)))
 ORIGIN = (0.5, -1.0, 2.0)
+SCALE_EXPS = (-10, -7, 7)  # 1/1024, 1/128, 128: radii from 0.0005 to 190
 ACC_ALL = (1, 2, 3, 4, 5, 6, 7, 8, 9, "low", "middle", "high")
 ACC_BIG = (1, 2, 3, 4, 5, 9)  # "middle" is still exercised as the default accuracy
 ACC_PERM = (2, 3, 5)  # renumbered copies of a layout
@@ -287,16 +288,21 @@ def plane_points(g, radii=None):
     return out
 
 
-def call_volume(R, rng, t, g, want, acc, label):
-    """One get_volume call, judged against the reference of geometry g.  Returns the value or None."""
+def call_volume(R, rng, t, g, want, acc, label, via=None):
+    """One get_volume call (or `via(acc)`: the same request through another front end), judged against the reference of geometry g.
+    Returns the value or None."""
     from swcgeom.analysis import get_volume
 
     lvl = NAMES.get(acc, acc)
     n_before = len(rng.samples)
-    okv, val = R.impl(f"get_volume[{acc}]", (lambda: get_volume(t)) if acc == "default" else (lambda: get_volume(t, accuracy=acc)))
+    a3 = g.get("scale3", 1.0)  # absolute slack scales with the cube of the layout's length unit
+    if via is not None:
+        okv, val = R.impl(f"extractor.volume[{acc}]", via, acc)
+    else:
+        okv, val = R.impl(f"get_volume[{acc}]", (lambda: get_volume(t)) if acc == "default" else (lambda: get_volume(t, accuracy=acc)))
     if not okv:
         return None
-    val = float(val)
+    val = float(np.asarray(val).ravel()[0])
     if lvl == "default":
         lvl = 5
     if lvl >= 5 and g["two_arm"]:
@@ -314,16 +320,16 @@ def call_volume(R, rng, t, g, want, acc, label):
             R.skip("mc-sample-on-triple-surface")
             return val
     if lvl == 1:
-        R.check(abs(val - want[1]) <= REL12 * want[1] + 1e-12, "level1:sum-of-spheres",
+        R.check(abs(val - want[1]) <= (REL12 if via is None else max(REL12, 2e-7)) * want[1] + 1e-12 * a3, "level1:sum-of-spheres",
                 lambda: f"{label}: accuracy={acc} -> {val!r}, sum of spheres {want[1]!r}")
     elif lvl == 2:
-        R.check(abs(val - want[2]) <= REL12 * want[2] + 1e-12, "level2:spheres+frusta",
+        R.check(abs(val - want[2]) <= (REL12 if via is None else max(REL12, 2e-7)) * want[2] + 1e-12 * a3, "level2:spheres+frusta",
                 lambda: f"{label}: accuracy={acc} -> {val!r}, spheres+frusta {want[2]!r}")
     else:
         union = want["union"]
         R.note("relerr<=" + _bucket(abs(val - union) / union if union > 0 else abs(val)))
         R.check(
-            math.isfinite(val) and abs(val - union) <= REL3 * union + 1e-9, "union",
+            math.isfinite(val) and abs(val - union) <= REL3 * union + 1e-9 * a3, "union",
             lambda: f"{label}: accuracy={acc} -> {val!r}, union volume {union!r} "
             f"(diff {val - union:+.6f}; lens volumes {[round(x, 6) for x in want['lens']]})",
             f"union:{want['tag']}:" + ("default" if acc == "default" else "analytic" if lvl < 5 or not g["two_arm"] else "with-mc-term"),
@@ -342,7 +348,11 @@ def check_collinear(case, R):
     shape, rs, ds, o, k = tuple(case[0]), [float(x) for x in case[1]], [float(x) for x in case[2]], int(case[3]), int(case[4])
     accset = case[5] if len(case) > 5 else "all"
     perm = [int(v) for v in case[6]] if len(case) > 6 and case[6] is not None else None
-    g = geometry(shape, rs, ds, o, perm)
+    sexp = int(case[7]) if len(case) > 7 else 0
+    sc = 2.0 ** sexp  # the same layout in another length unit (mm instead of um ...): an exact power of two
+    rs, ds = [r * sc for r in rs], [d * sc for d in ds]
+    g = geometry(shape, rs, ds, o, perm, origin=tuple(c * sc for c in ORIGIN))
+    g["scale3"] = sc ** 3
     want, why = reference(g)
     if want is None:  # a spacing equal to a radius can fall short by one float32 ulp in an oblique orientation
         R.skip("precondition:" + why)
@@ -360,7 +370,7 @@ def check_collinear(case, R):
         for e, (i, j) in enumerate(g["edges"])
     )
     R.outcome(shape[0], sig, perm is not None)
-    label = label_of(g) + f" rng={k}"
+    label = label_of(g) + f" rng={k}" + (f" unit=2^{sexp}" if sexp else "")
     accs = {"all": ACC_ALL, "big": ACC_BIG, "perm": ACC_PERM}[accset]
     with OwnedRNG(g["axis"], k, plane_points(g)) as rng:
         VolMCObject.n_samples = 4096 if n <= 3 else 512
@@ -389,6 +399,12 @@ def check_collinear(case, R):
                 if okk:
                     R.check(abs(float(np.asarray(f1)[0]) - want[1]) <= REL12 * want[1] + 1e-12, "feature:volume",
                             lambda: f"{label}: extract_feature(t).get('volume', accuracy=1) = {f1!r}, sum of spheres {want[1]!r}", "feature:volume:kwargs")
+            # ONE extractor object asked for several levels in turn (and for the first again): each answer is that level's volume
+            okx, fe = R.impl("extract_feature", extract_feature, t)
+            if okx:
+                for acc in (3, 1, 2, 4, 1, 3):
+                    rng.reset()
+                    call_volume(R, rng, t, g, want, acc, label + " [one extractor object, levels 3,1,2,4,1,3]", via=lambda a, fe=fe: fe.get("volume", accuracy=a))
         R.note("rand-calls", rng.rand_calls)
         R.note("mc-samples-on-root-plane", rng.on_plane)
     R.check(build.snapshot(t) == snap, "input-modified", lambda: label)
@@ -715,6 +731,7 @@ def spaces(tier, seed):
             yield list(seq)
 
     sizes = range(1, cfg["nmax"] + 1)
+    scfg = dict(cfg, nmax=3 if tier == "quick" else 4, n_orient=lambda n: 2, full_rng=0, ks=(default_k,), zero_upto=0, perm_mode=lambda n: None, big_from=3)
     return [
         Space.of(
             "collinear", lambda: collinear_cases(cfg), check_collinear,
@@ -729,6 +746,9 @@ def spaces(tier, seed):
                 "mc_samples": {"n<=3": 4096, "larger": 512},
             },
         ),
+        Space.of("collinear-other-length-units", lambda: (c + [e] for c in (list(x) for x in collinear_cases(scfg)) if c[6] is None for e in SCALE_EXPS), check_collinear,
+                 bounds={"max_nodes": scfg["nmax"], "unit": [f"2^{e}" for e in SCALE_EXPS], "radii": list(RADII), "spacings": list(SPACINGS),
+                         "note": "the collinear layouts with every length multiplied by an exact power of two; absolute slack scaled by its cube"}),
         Space.of("levels-1-2", gen_general, check_general,
                  bounds={"ST_max_nodes": st_hi, "LT_max_nodes": lt_hi, "banks": list(banks) + ["lattice (zero-length edges, one zero radius)"]}),
         Space.of("query-edit-query", lambda: edit_cases(e_shapes, e_radii, e_sp, e_orients), check_edit,
